@@ -5,7 +5,7 @@
    Conventions of the model (Model/C04_Dens.v): a parameter is a list of length 1 (scalar, broadcast by
    `bc n`) or n; `fixed` selects the repaired (true) or the unrepaired (false) formula of the defects
    that have a fix proposal; lnGamma enters through its value G = Gamma(shape) > 0. *)
-From CV Require Import Base.Tac Base.Cmp Model.C04_Dens Model.C04_Cdf Proofs.C04_Cdf Proofs.C04_Lim Proofs.C04_Dens Proofs.C04_Gauss Proofs.C04_Norm Proofs.C04_More Proofs.C04_Sym.
+From CV Require Import Base.Tac Base.Cmp Model.C04_Dens Model.C04_Cdf Proofs.C04_Cdf Proofs.C04_Cdf2 Proofs.C04_Lim Proofs.C04_Dens Proofs.C04_Gauss Proofs.C04_Norm Proofs.C04_More Proofs.C04_Sym.
 From Coq Require Import QArith Reals Lra.
 From Coquelicot Require Import Coquelicot.
 Local Open Scope R_scope.
@@ -157,8 +157,49 @@ Theorem C04_gamma_int_normalised : forall (k : nat) (r : R), 0 < r -> is_lim (ga
 Proof. exact gamma_int_normalised. Qed.
 Print Assumptions C04_gamma_int_normalised.
 
-(* PARTIAL: d/dx cdf = pdf is proved for Normal, Cauchy and Gamma with integer shape.  Not proved: Beta and InverseGamma
-   (their cdfs are in the model as integrals for integer shapes and enclosed per case, but no theorem), Gamma / Beta /
+(* Beta with integer shapes (a+1, b+1) and InverseGamma with integer shape k+1: the cdfs of the model (integrals of the documented
+   densities; InverseGamma through 1/(x - loc) ~ Gamma) have the densities as derivatives *)
+Theorem C04_beta_cdf_derivative : forall (a b : nat) (x : R), is_derive (beta_int_cdf1 a b) x (beta_int_pdf a b x).
+Proof. exact beta_int_cdf_derive. Qed.
+Print Assumptions C04_beta_cdf_derivative.
+
+Theorem C04_beta_int_pdf_documented : forall (a b : nat) (x : R), 0 < x < 1 ->
+  beta_int_pdf a b x = beta_pdf1 (INR (fact a)) (INR (fact b)) (INR (fact (a + b + 1))) (INR (S a)) (INR (S b)) x.
+Proof. exact beta_int_pdf_doc. Qed.
+Print Assumptions C04_beta_int_pdf_documented.
+
+Theorem C04_invgamma_cdf_derivative : forall (k : nat) (l sc x : R), l < x ->
+  is_derive (invgamma_int_cdf1 k l sc) x (invgamma_int_pdf k l sc x).
+Proof. exact invgamma_int_cdf_derive. Qed.
+Print Assumptions C04_invgamma_cdf_derivative.
+
+(* the formula the CODE evaluates for Normal.cdf, 0.5 (1 + erf((x-m)/(s sqrt 2))), equals the model's integral under the
+   named oracle law  erf z = 2/sqrt(pi) int_0^z exp(-t^2) dt  (scipy.special.erf; erf is not defined in the installed libraries) *)
+Theorem C04_normal_cdf_erf_law : forall erf : R -> R,
+  (forall z, erf z = 2 / sqrt PI * RInt (fun t => exp (- (t * t))) 0 z) ->
+  forall m s x : R, 0 < s -> normal_cdf1_code erf m s x = normal_cdf1 (m, s, x).
+Proof. exact normal_cdf1_code_is_model. Qed.
+Print Assumptions C04_normal_cdf_erf_law.
+
+(* Lognormal, per coordinate: the model's term is ln of (1/t) N(ln t; m, s); by the change of variables u = ln t its integral
+   over [a, b] is the Normal cdf difference at ln (FULL, no assumption); hence it is normalised IF the Normal is -- the
+   dependency made explicit: the two limits of the Normal cdf are hypotheses (no Gaussian integral in the installed libraries) *)
+Theorem C04_lognormal_term : forall m s t : R, 0 < t -> 0 < s -> lognormal_term (m, s, t) = ln (lognormal_pdf1 m s t).
+Proof. exact lognormal_term_ln. Qed.
+Print Assumptions C04_lognormal_term.
+
+Theorem C04_lognormal_mass : forall m s a b : R, 0 < s -> 0 < a -> a <= b ->
+  is_RInt (lognormal_pdf1 m s) a b (normal_cdf1 (m, s, ln b) - normal_cdf1 (m, s, ln a)).
+Proof. exact lognormal_mass. Qed.
+Print Assumptions C04_lognormal_mass.
+
+Theorem C04_lognormal_normalised_given_normal : forall m s : R, 0 < s ->
+  is_lim (fun u => normal_cdf1 (m, s, u)) p_infty 1 -> is_lim (fun u => normal_cdf1 (m, s, u)) m_infty 0 ->
+  is_lim (fun v => RInt (lognormal_pdf1 m s) (exp (- v)) (exp v)) p_infty 1.
+Proof. exact lognormal_normalised_given_normal. Qed.
+Print Assumptions C04_lognormal_normalised_given_normal.
+
+(* PARTIAL: d/dx cdf = pdf is proved for Normal, Cauchy, and Gamma / Beta / InverseGamma with integer shapes.  Not proved: Gamma / Beta /
    InverseGamma with non-integer shapes (tied by the oracle's quadrature only), the multivariate Gaussian cdf (scipy's
    algorithm; the covariance handed to it is checked exactly, the value against quadrature in 1-2 d), and the identity of
    erf / the regularised incomplete gamma function with these integrals (not in the installed libraries). *)
